@@ -1,8 +1,12 @@
 package props
 
 import (
+	"bytes"
 	"encoding/json"
 	"fmt"
+	"io"
+	"net/http"
+	"runtime/debug"
 	"sort"
 	"strings"
 	"testing"
@@ -12,6 +16,10 @@ import (
 	"github.com/vektah/gqlparser/v2/ast"
 	"github.com/vektah/gqlparser/v2/validator"
 	"pgregory.net/rapid"
+
+	pebbles "github.com/buildbuildio/pebbles"
+	pintro "github.com/buildbuildio/pebbles/introspection"
+	"github.com/buildbuildio/pebbles/queryer"
 
 	"verif/harness/ev"
 	"verif/harness/fake"
@@ -141,8 +149,64 @@ func checkC16(c *ExecCase) (*ev.Failure, string) {
 				return ev.Failf("client-rebuild:"+factKind(f)+":invented", "the schema rebuilt from the gateway's introspection has %q which the enforced schema lacks", f), ""
 			}
 		}
+		// "including another gateway": the gateway's own introspection client, pointed at this gateway, rebuilds the
+		// same schema (directive repeatability aside: its query does not ask for it, open finding KF-C15-1)
+		intro := &pintro.ParallelRemoteSchemaIntrospector{Factory: func(url string) queryer.Queryer {
+			return queryer.NewMultiOpQueryer(url, 1).WithHTTPClient(&http.Client{Transport: gatewayTransport{gw}})
+		}}
+		var second []*ast.Schema
+		var ierr error
+		pan := ""
+		func() {
+			defer func() {
+				if r := recover(); r != nil {
+					pan = fmt.Sprintf("%v\n%s", r, debug.Stack())
+				}
+			}()
+			second, ierr = intro.IntrospectRemoteSchemas("http://gateway-1.test/graphql")
+		}()
+		if pan != "" {
+			return ev.Failf("gateway-rebuild:panic", "%s", trunc(pan, 800)), ""
+		}
+		if ierr != nil || len(second) != 1 {
+			return ev.Failf("gateway-rebuild:error", "a second gateway cannot introspect this one: %v", ierr), ""
+		}
+		noRep := func(m map[string]bool) map[string]bool {
+			out := map[string]bool{}
+			for f := range m {
+				out[strings.TrimSuffix(f, ":repeatable")] = true
+			}
+			return out
+		}
+		a2, b2 := noRep(a), noRep(c15Facts(second[0]))
+		for _, f := range sortedFacts(a2) {
+			if !b2[f] {
+				return ev.Failf("gateway-rebuild:"+factKind(f)+":lost", "the schema a second gateway rebuilds from this gateway's introspection lacks %q", f), ""
+			}
+		}
+		for _, f := range sortedFacts(b2) {
+			if !a2[f] {
+				return ev.Failf("gateway-rebuild:"+factKind(f)+":invented", "the schema a second gateway rebuilds from this gateway's introspection has %q which the enforced schema lacks", f), ""
+			}
+		}
 	}
 	return nil, class
+}
+
+// gatewayTransport serves the HTTP requests of an introspection client from a gateway's own handler.
+type gatewayTransport struct{ gw *pebbles.Gateway }
+
+func (g gatewayTransport) RoundTrip(r *http.Request) (*http.Response, error) {
+	body, err := io.ReadAll(r.Body)
+	if err != nil {
+		return nil, err
+	}
+	resp := gwx.Post(g.gw, body, r.Header.Get("Content-Type"), 15*time.Second)
+	if resp.TimedOut || resp.Panic != "" {
+		return nil, fmt.Errorf("gateway did not answer: %s", trunc(resp.Panic, 300))
+	}
+	return &http.Response{StatusCode: resp.Status, Status: http.StatusText(resp.Status), Header: http.Header{"Content-Type": []string{"application/json"}},
+		Body: io.NopCloser(bytes.NewReader(resp.Body)), Request: r, ProtoMajor: 1, ProtoMinor: 1}, nil
 }
 
 // warmupVariables returns the variables with every value changed (booleans flipped, strings replaced by another type name)
@@ -205,7 +269,7 @@ func genIntrospectionOp(t *rapid.T, schema *ast.Schema) *opgen.Op {
 
 func TestC16(t *testing.T) {
 	rec := ev.Get("C16")
-	rec.Rule = "gateway over (a) a generated federated world or (b) one service with a generated type-system-rich schema (descriptions, deprecations, directives, defaults, wrappers) x introspection operation: the standard query (1 in 6) or a grammar-generated selection over the meta-schema (aliases, fragments, @skip/@include, __type by literal and by variable with existing/builtin/unknown names, includeDeprecated literal/variable/omitted); oracle: answer == harness resolver on the merger's schema (lists order-insensitive), no downstream request, and for the standard query a standard client rebuilds a schema with exactly the enforced schema's facts; non-trivial = selection reaching depth>=3 of the meta-schema on a schema with interface/union/input/enum; distinct by hash(case)"
+	rec.Rule = "gateway over (a) a generated federated world or (b) one service with a generated type-system-rich schema (descriptions, deprecations, directives, defaults, wrappers) x introspection operation: the standard query (1 in 6) or a grammar-generated selection over the meta-schema (aliases, fragments, @skip/@include, __type by literal and by variable with existing/builtin/unknown names, includeDeprecated literal/variable/omitted); oracle: answer == harness resolver on the merger's schema (lists order-insensitive), no downstream request, and for the standard query a standard client rebuilds a schema with exactly the enforced schema's facts, and so does the gateway's own introspection client pointed at this gateway (a second gateway; directive repeatability aside, KF-C15-1); non-trivial = selection reaching depth>=3 of the meta-schema on a schema with interface/union/input/enum; distinct by hash(case)"
 	defer census.dump("C16")
 	rapid.Check(t, func(t *rapid.T) {
 		var w *world.World
